@@ -125,9 +125,8 @@ def invoke(tool, form, sb, style, outarg, unknown=False):
                 with common.argv(["colander", arg, "-v", "f2", "f0", "-o", outarg]):
                     common.repo_module("amr_kitchen.colander.cli").main()
         elif tool == "combine":
-            arg2, _ = sb.styled(sb.plt2, style)
-            if style in ("rel_parent", "rel_dot", "rel_slash"):
-                pass
+            # the second path without the trailing slash: the two defaults then compose differently
+            arg2, _ = sb.styled(sb.plt2, style.replace("_slash", "") if style != "rel_slash" else "rel_parent")
             if form == "api":
                 from amr_kitchen import PlotfileCooker
                 from amr_kitchen.combine.combine import combine
@@ -217,6 +216,24 @@ def allowed_roots(tool, sb, out_abs):
     return None
 
 
+def default_prefixes(tool, sb, cwd):
+    """path prefixes of the documented default outputs (beside the input / in the cwd)"""
+    plt, chk = sb.plt, sb.chk
+    if tool == "chef":
+        return [plt + "_ck"]
+    if tool == "combine":
+        return [os.path.join(cwd, os.path.basename(sb.plt) + os.path.basename(sb.plt2))]
+    if tool.startswith("mandoline"):
+        return [os.path.join(os.path.dirname(plt), "S")]
+    if tool == "marinate":
+        return [plt + ".pkl"]
+    if tool == "chk2plt":
+        return [os.path.join(os.path.dirname(chk), os.path.basename(chk).replace("chk", "plt"))]
+    if tool == "whip":
+        return [os.path.join(cwd, "f1_ugrid_")]
+    return []
+
+
 def make_refY(sb):
     ref = gen.gen_model(1, ndims=3, nlevels=1, names=["density", "Y(H2)", "Y(O2)"], bf=4, base_blocks=(1, 1))
     sb.refY = os.path.join(sb.ind, "pltrefY")
@@ -224,7 +241,7 @@ def make_refY(sb):
     sb.inputs.append(sb.refY)
 
 
-def audit_invocation(rec, sb, work, descr, key, call, out_abs, reader, nontrivial, expect_fail=False):
+def audit_invocation(rec, sb, work, descr, key, call, out_abs, reader, nontrivial, expect_fail=False, defaults=None):
     """run call() under snapshot + audit log; judge confinement. returns (raised?, exception)"""
     snaps = {p: fsaudit.snapshot(p) for p in sb.inputs}
     before = fsaudit.listing(sb.root)
@@ -260,6 +277,8 @@ def audit_invocation(rec, sb, work, descr, key, call, out_abs, reader, nontrivia
             probs.append(f"reader-only tool wrote {os.path.relpath(p, sb.root)}")
         elif out_abs and not any(fsaudit.under(p, r) for r in allowed_roots(None, sb, out_abs)):
             probs.append(f"wrote outside the requested output: {os.path.relpath(p, sb.root)}")
+        elif defaults is not None and not any(p.startswith(d) for d in defaults):
+            probs.append(f"wrote outside the documented default output: {os.path.relpath(p, sb.root)}")
     probs = list(dict.fromkeys(probs))
     if probs:
         rec.violation(f"tool touched its input or wrote outside its output ({probs[0][:140]}): {descr}", key=key,
@@ -306,7 +325,8 @@ def run_forms(case, work, rec):
                 rec.count("trailing_slash_forms")
             exc, new = audit_invocation(rec, sb, work, descr, key,
                                         lambda: invoke(tool, form, sb, style, outarg), out_abs, reader,
-                                        output == "default" or "slash" in style)
+                                        output == "default" or "slash" in style,
+                                        defaults=default_prefixes(tool, sb, cwd) if output == "default" else None)
             if exc is not None:
                 rec.count("raised:" + type(exc).__name__)
                 rec.seen("raised_forms", f"{tool}/{form}/{output}/{style}: {type(exc).__name__}")
